@@ -104,6 +104,7 @@ func StartWatchdog(limit time.Duration, onStall func(stacks string) bool) {
 	go func() {
 		last := Heartbeat.Load()
 		lastMove := time.Now()
+		var drainSeen time.Time
 		for {
 			time.Sleep(time.Second)
 			cur := Heartbeat.Load()
@@ -111,7 +112,12 @@ func StartWatchdog(limit time.Duration, onStall func(stacks string) bool) {
 				last, lastMove = cur, time.Now()
 				continue
 			}
-			if time.Since(lastMove) > limit {
+			if DrainingSince.Load() == 0 {
+				drainSeen = time.Time{}
+			} else if drainSeen.IsZero() {
+				drainSeen = time.Now()
+			}
+			if time.Since(lastMove) > limit || (!drainSeen.IsZero() && time.Since(drainSeen) > 8*time.Second) {
 				buf := make([]byte, 8<<20)
 				n := runtime.Stack(buf, true)
 				st := string(buf[:n])
@@ -123,6 +129,33 @@ func StartWatchdog(limit time.Duration, onStall func(stacks string) bool) {
 			}
 		}
 	}()
+}
+
+// StuckInSUT inspects a full goroutine dump and reports whether some goroutine is
+// running or runnable (not parked, not blocked) with a frame of the system under test on
+// its stack: a CPU loop inside sysl rather than trouble in the harness.  It returns the
+// top frames of that goroutine.
+func StuckInSUT(stacks string) (bool, string) {
+	for _, g := range strings.Split(stacks, "\n\n") {
+		head := g
+		if i := strings.Index(g, "\n"); i >= 0 {
+			head = g[:i]
+		}
+		if !(strings.Contains(head, "[running") || strings.Contains(head, "[runnable")) {
+			continue
+		}
+		if strings.Contains(g, "core.StartWatchdog") {
+			continue
+		}
+		if strings.Contains(g, "github.com/anz-bank/sysl/pkg/") || strings.Contains(g, "github.com/anz-bank/sysl/cmd/") {
+			lines := strings.Split(g, "\n")
+			if len(lines) > 14 {
+				lines = lines[:14]
+			}
+			return true, strings.Join(lines, " | ")
+		}
+	}
+	return false, ""
 }
 
 // Set of strings with sorted listing.
